@@ -7,22 +7,21 @@
 // instrumented), so the fuzzer is rewarded for choice strings that reach new library code: threshold dimensions,
 // rare k / cutoff regimes, window placements.
 //
-// A failing case is written as a recipe (VF_FZ_OUT/viol-*.case) before the trap; a sanitizer report writes the recipe in
-// flight from the death callback (crash-*.case).  The driver replays the recipes with the ordinary vf binary; only a
-// recipe that reproduces there is reported.
+// A failing case is written as a recipe (VF_FZ_OUT/viol-*.case) before the trap.  A sanitizer report or signal leaves
+// libFuzzer's crash-* artifact (libFuzzer owns the sanitizer death callback); the driver runs this binary once more on the
+// artifact with VF_FZ_DECODE set, which only regenerates the case and writes its recipe (crash-*.case).  The driver replays
+// the recipes with the ordinary vf binary; only a recipe that reproduces there is reported.
 #include "gen.hpp"
 #include "stats.hpp"
 #include <ctime>
 #include <unistd.h>
-
-extern "C" void __sanitizer_set_death_callback(void (*)(void));
 
 static const Prop *g_prop = nullptr;
 static GenCtx g_ctx;
 static std::string g_out, g_cur, g_stats_path;
 static Stats g_st;
 static long g_execs = 0, g_short = 0, g_exhausted = 0;
-static bool g_in_exec = false;
+static bool g_in_exec = false, g_decode = false;
 
 static void write_recipe(const char *kind, const std::string &recipe, const std::string &msg) {
   if (g_out.empty() || recipe.empty()) return;
@@ -44,11 +43,6 @@ static void flush_stats() {
   write_stats(g_stats_path, g_st, g_prop ? g_prop->id : "?", 0.0, true);
 }
 
-static void on_death() {
-  if (g_in_exec) write_recipe("crash", g_cur, "process died (sanitizer report or signal) while executing this case in the fuzz build");
-  flush_stats();
-}
-
 extern "C" int LLVMFuzzerInitialize(int *, char ***) {
   const char *p = getenv("VF_FZ_PROP");
   if (!p) {
@@ -65,7 +59,7 @@ extern "C" int LLVMFuzzerInitialize(int *, char ***) {
   g_ctx.scale = getenv("VF_FZ_SCALE") ? atoi(getenv("VF_FZ_SCALE")) : 200;
   if (getenv("VF_FZ_OUT")) g_out = getenv("VF_FZ_OUT");
   if (getenv("VF_FZ_STATS")) g_stats_path = getenv("VF_FZ_STATS");
-  __sanitizer_set_death_callback(on_death);
+  g_decode = getenv("VF_FZ_DECODE") != nullptr;
   atexit(flush_stats);
   return 0;
 }
@@ -89,6 +83,10 @@ extern "C" int LLVMFuzzerTestOneInput(const uint8_t *data, size_t size) {
   c.sets("prop", g_prop->id);
   g_cur = c.str();
   g_execs++;
+  if (g_decode) {  // the driver asks which recipe a saved crash artifact stands for
+    write_recipe("crash", g_cur, "the fuzz build (fatal ASan+UBSan) died while executing this case: sanitizer report or signal");
+    return 0;
+  }
   Verdict v;
   g_in_exec = true;
   try {
